@@ -79,6 +79,7 @@ class Replay:
                 elif w[0] == "CONNDONE":
                     conndone[w[1]] = w[2] if len(w) > 2 else "ok"
         inpos = {}
+        broken = set()          # clients whose peer is fully gone (FULLCLOSE / RST): a write to them fails
         # split: prologue (before first POLL), then per round: [DEV*, POLL_k] REV_k pass-lines ...
         polls = [i for i, l in enumerate(tr) if l.startswith("POLL ")]
         if not polls:
@@ -135,6 +136,10 @@ class Replay:
                         plans[i].append(PLANMAP[kv["plan"]])
             for i, p in enumerate(self.ispipe):
                 if p: plans[i] = ["now", "now", "now", "now"]
+            for e in (self.events[k] if k < len(self.events) else []):
+                t = e.split()
+                if t and t[0] in ("FULLCLOSE", "RST") and len(t) > 1 and t[1].startswith("c") and not t[1].startswith("conn"):
+                    broken.add(t[1])
             L.append("ROUND %d %d" % (now + T0, 1 if accept else 0))
 
             def rd(name):
@@ -150,7 +155,7 @@ class Replay:
                 f = flags.get(name, "")
                 if not f:
                     continue
-                fl = ("b" if ("e" in f or "n" in f) else "") + ("i" if ("i" in f or "h" in f) else "") + ("o" if "o" in f else "")
+                fl = ("b" if ("e" in f or "n" in f) else "") + ("i" if ("i" in f or "h" in f) else "") + ("o" if "o" in f else "") + ("x" if name in broken else "")
                 r = rd(name) if ("i" in fl and "b" not in fl) else "~"
                 wv = "~"
                 if "o" in fl and "b" not in fl:
@@ -257,13 +262,6 @@ def compare(expect, got):
 
 def replay_session(model_exe, enq_exe, sess, consts, version, short_circuit=False):
     """-> (n_passes, difference or None)"""
-    # until Device.handle_ready models the transport's preprocess method: a tcp device that sends IAC is not replayed
-    if any(d.transport == "tcp" for d in sess.cfg.devs):
-        for rnd in sess.sim.events:
-            for ev in rnd:
-                w = ev.split()
-                if w[0] == "IN" and w[1].startswith("conn") and len(w) > 2 and b"\xff" in (bytes.fromhex(w[2]) if w[2] != "-" else b""):
-                    return 0, "skipped-telnet"
     rp = Replay(sess.cfg, sess.sim.trace, sess.sim.events)
     conv = rp.convert()
     if conv is None:
